@@ -136,6 +136,22 @@ func c11Check(text string, assignKind int, monitor bool, secSecrets []string) (g
 		add("valid", "C11:invalid-file", fmt.Sprintf("generated file does not load: %v", err))
 		return gen, findings
 	}
+	// the injector is stateful: after a history of configurations and assignments the file must be the
+	// one a fresh injector generates for the last configuration and assignment
+	opt := sidecar.InjectConfigOptions{ProxyURL: "http://127.0.0.1:8008", PrometheusURL: "http://127.0.0.1:9090", ShardMonitorEnable: monitor}
+	for _, h := range c11Histories(text, assignKind) {
+		hinfo, err := pipe.LoadInfo(h.text)
+		if err != nil {
+			chk.Fatalf("C11 history config rejected: %v\n%s", err, h.text)
+		}
+		fresh, err1 := pipe.Inject(hinfo, c11Assign(h.assign), opt)
+		after, err2 := pipe.InjectHistory([]pipe.Step{{Info: info, Assigned: assigned}, {Info: h.info(hinfo), Assigned: h.assigned()}}, opt)
+		if err1 != nil || err2 != nil {
+			add("history", "C11:history-error:"+h.name, fmt.Sprintf("%v / %v", err1, err2))
+		} else if string(fresh) != string(after) {
+			add("history", "C11:stale-after-"+h.name, fmt.Sprintf("after (config, assignment) followed by %s the generated file differs from the one a fresh injector writes for the final input", h.name))
+		}
+	}
 	// jobs, order
 	var want []string
 	for _, j := range orig.ScrapeConfigs {
@@ -326,4 +342,46 @@ func init() {
 			}
 		}
 	})
+}
+
+type c11History struct {
+	name      string
+	text      string
+	assign    int
+	newConfig bool
+	newAssign bool
+}
+
+func (h c11History) info(i *prom.ConfigInfo) *prom.ConfigInfo {
+	if h.newConfig {
+		return i
+	}
+	return nil
+}
+
+func (h c11History) assigned() map[string][]*target.Target {
+	if h.newAssign {
+		return c11Assign(h.assign)
+	}
+	return nil
+}
+
+// c11Histories: second steps after (text, assignKind).
+func c11Histories(text string, assignKind int) []c11History {
+	var out []c11History
+	// only external labels change (the configuration hash stays the same)
+	ext := text
+	if strings.Contains(text, "external_labels: {cluster: c1}") {
+		ext = strings.Replace(text, "external_labels: {cluster: c1}", "external_labels: {cluster: c2}", 1)
+	} else if strings.HasPrefix(text, "global:\n") {
+		ext = strings.Replace(text, "global:\n", "global:\n  external_labels: {cluster: c9}\n", 1)
+	} else {
+		ext = "global:\n  external_labels: {cluster: c9}\n" + text
+	}
+	out = append(out, c11History{name: "reload-external-labels-only", text: ext, assign: assignKind, newConfig: true})
+	// a job setting changes
+	out = append(out, c11History{name: "reload-job-setting", text: strings.Replace(text, "- job_name: j2\n", "- job_name: j2\n  params:\n    module: [z]\n", 1), assign: assignKind, newConfig: true})
+	// only the assignment changes
+	out = append(out, c11History{name: "assignment-change", text: text, assign: (assignKind + 1) % 4, newAssign: true})
+	return out
 }
